@@ -7,8 +7,8 @@
   implies that the run exhibits one of
     * `HashCollision`   two different hash inputs with one digest,
     * `KdfCoincidence`  two different (chaining key, input key material) pairs for which the same
-                        output component of HKDF (chaining key, `temp_h`, or the 32-byte cipher key)
-                        coincides,
+                        output component of HKDF (new chaining key, or the 32-byte cipher key of
+                        `MixKey` resp. `MixKeyAndHash`) coincides,
     * `AeadCollision`   one ciphertext that is the encryption of something under two different
                         contexts (key, nonce, associated data).
 -/
@@ -22,7 +22,6 @@ def HashCollision (S : Suite) : Prop := ∃ x y, x ≠ y ∧ S.hash x = S.hash y
 def KdfCoincidence (S : Suite) : Prop :=
   ∃ ck ikm ck' ikm', (ck, ikm) ≠ (ck', ikm') ∧
     ((hkdf S ck ikm).1 = (hkdf S ck' ikm').1 ∨
-     (hkdf S ck ikm).2.1 = (hkdf S ck' ikm').2.1 ∨
      (hkdf S ck ikm).2.1.take 32 = (hkdf S ck' ikm').2.1.take 32 ∨
      (hkdf S ck ikm).2.2.take 32 = (hkdf S ck' ikm').2.2.take 32)
 
